@@ -511,6 +511,30 @@ func runEngine(t *testing.T, eng *engine) {
 		seed uint64
 	}
 	shrinkSig := ""
+	if len(fineSiteList) > 0 {
+		// Fine-grained mode only: a statement-level scheduling point may sit in a callback that a
+		// library (not rewritten) invokes while holding its own mutex; a task parked there makes the
+		// next task block on that mutex, which synctest.Wait cannot see through, and the run hangs.
+		// Such a run says nothing about the property: the worker writes what it has and ends, and
+		// the driver starts a fresh one on the next batch.
+		go func() {
+			last, since := int64(-1), time.Now()
+			for {
+				time.Sleep(time.Second)
+				if p := runProgress.Load(); p != last {
+					last, since = p, time.Now()
+				} else if time.Since(since) > 20*time.Second {
+					out.Counters["fine.hung-run-abandoned"]++
+					out.NextBatch = batch + 1
+					out.WallS = time.Since(start).Seconds()
+					if *fOut != "" {
+						writeJSON(*fOut, out)
+					}
+					os.Exit(0)
+				}
+			}
+		}()
+	}
 	for time.Now().Before(deadline) && out.Runs < *fMaxRuns && fail.in == nil {
 		// Goroutines left behind by simulated process deaths (DESIGN 2.2) pin the memory of their
 		// run: the worker ends when its heap has grown and the driver starts a fresh one.
